@@ -204,7 +204,11 @@ func c07Case(t *rapid.T, ev *evProp, gi *GroupInfo, maxN int) {
 	}
 	ctx += fmt.Sprintf(" base=%s list=%v", baseDesc, list)
 	enough := size >= th
-	rs, err := share.RecoverSecret(g, priList, uint32(th), uint32(n))
+	// the n handed to the Recover* functions is the size of the group that recovers, which after a
+	// resharing to a smaller group is NOT a bound on the share indices (share/poly_test.go,
+	// TestSecretRecoveryOutIndex: shares 4..9 recovered with n = t+1): any n >= t gives the same result
+	nArg := uint32(rapid.SampledFrom([]int{n, n, th, th + 1, n + 5}).Draw(t, "nArg"))
+	rs, err := share.RecoverSecret(g, priList, uint32(th), nArg)
 	if enough {
 		if err != nil || scalarToBig(rs).Cmp(secret) != 0 {
 			fail("RecoverSecret", "RecoverSecret = %v err=%v, want %x", rs, err, secret)
@@ -212,7 +216,7 @@ func c07Case(t *rapid.T, ev *evProp, gi *GroupInfo, maxN int) {
 	} else if err == nil {
 		fail("RecoverSecret-refuse", "RecoverSecret succeeded with %d < t distinct shares", size)
 	}
-	rc, err := share.RecoverCommit(g, pubList, uint32(th), uint32(n))
+	rc, err := share.RecoverCommit(g, pubList, uint32(th), nArg)
 	if enough {
 		if err != nil || !rc.Equal(pub.Commit()) {
 			fail("RecoverCommit", "RecoverCommit err=%v or value differs from secret*base", err)
@@ -220,7 +224,7 @@ func c07Case(t *rapid.T, ev *evProp, gi *GroupInfo, maxN int) {
 	} else if err == nil {
 		fail("RecoverCommit-refuse", "RecoverCommit succeeded with %d < t distinct shares", size)
 	}
-	rp, err := share.RecoverPriPoly(g, priList, uint32(th), uint32(n))
+	rp, err := share.RecoverPriPoly(g, priList, uint32(th), nArg)
 	if enough {
 		if err != nil {
 			fail("RecoverPriPoly", "RecoverPriPoly err=%v", err)
@@ -244,7 +248,7 @@ func c07Case(t *rapid.T, ev *evProp, gi *GroupInfo, maxN int) {
 	} else if err == nil {
 		fail("RecoverPriPoly-refuse", "RecoverPriPoly succeeded with %d < t distinct shares", size)
 	}
-	rpp, err := share.RecoverPubPoly(g, pubList, uint32(th), uint32(n))
+	rpp, err := share.RecoverPubPoly(g, pubList, uint32(th), nArg)
 	if enough {
 		if err != nil {
 			fail("RecoverPubPoly", "RecoverPubPoly err=%v", err)
@@ -513,13 +517,14 @@ func TestC07_SparseIndices(t *testing.T) {
 				violationOrKnown(t, ev, key("check"), "Check rejects the honest share with index %d\n%s", ix, ctx)
 			}
 		}
-		if rs, err := share.RecoverSecret(g, pl, uint32(th), uint32(n)); err != nil || scalarToBig(rs).Cmp(coeffs[0]) != 0 {
+		nArg := uint32(rapid.SampledFrom([]int{n, th, th + 1}).Draw(t, "nArg"))
+		if rs, err := share.RecoverSecret(g, pl, uint32(th), nArg); err != nil || scalarToBig(rs).Cmp(coeffs[0]) != 0 {
 			violationOrKnown(t, ev, key("RecoverSecret"), "RecoverSecret = %v err=%v, want %x\n%s", rs, err, coeffs[0], ctx)
 		}
-		if rc, err := share.RecoverCommit(g, ql, uint32(th), uint32(n)); err != nil || !rc.Equal(pub.Commit()) {
+		if rc, err := share.RecoverCommit(g, ql, uint32(th), nArg); err != nil || !rc.Equal(pub.Commit()) {
 			violationOrKnown(t, ev, key("RecoverCommit"), "RecoverCommit err=%v or value differs from secret*base\n%s", err, ctx)
 		}
-		if rp, err := share.RecoverPriPoly(g, pl, uint32(th), uint32(n)); err != nil {
+		if rp, err := share.RecoverPriPoly(g, pl, uint32(th), nArg); err != nil {
 			violationOrKnown(t, ev, key("RecoverPriPoly"), "RecoverPriPoly err=%v\n%s", err, ctx)
 		} else {
 			got := rp.Coefficients()
@@ -537,7 +542,7 @@ func TestC07_SparseIndices(t *testing.T) {
 				}
 			}
 		}
-		if rpp, err := share.RecoverPubPoly(g, ql, uint32(th), uint32(n)); err != nil || !rpp.Commit().Equal(pub.Commit()) {
+		if rpp, err := share.RecoverPubPoly(g, ql, uint32(th), nArg); err != nil || !rpp.Commit().Equal(pub.Commit()) {
 			violationOrKnown(t, ev, key("RecoverPubPoly"), "RecoverPubPoly err=%v or constant term differs\n%s", err, ctx)
 		}
 		ev.Case(true, ctx, "share-sparse:"+shape, fmt.Sprintf("share-sparse-n:%d", n))
